@@ -177,6 +177,19 @@ def restore_regions(ctx, rule):
             tab[rel] = outcomes(body, sig, terms, hooks, fx)
         res[around] = tab
         ctx.stats['kernel_states'] += 3
+    # a node exactly AT the floor (min_prob is 0.0 in every session; rulesets do contain zero-probability groups, e.g. unused OMEN
+    # levels) must be treated like a node above it: only nodes strictly below the floor are dropped
+    for around in (True, False):
+        fx = {U(c): around for c in around_calls}
+        for rel in (LT, EQ, GT):
+            at_floor = outcomes(body, {('P', 'MAX'): rel, ('P', 'MIN'): EQ}, terms, hooks, fx)
+            norm = lambda outs: sorted('%s %s [%s]' % (k, d, '+'.join(t)) for k, d, t in outs)
+            if norm(at_floor) != norm(res[around][rel]):
+                ctx.bad(rule, qual, 'a node with probability == min_prob is handled as %s, one above it as %s' % (norm(at_floor)[:2], norm(res[around][rel])[:2]),
+                        'min_prob is 0.0: the test must drop only nodes strictly below it, a zero-probability node (and its sub-tree) '
+                        'is otherwise lost by every restore', None, fn, firm=True)
+                return None
+        ctx.stats['kernel_states'] += 3
     facts['table'] = {('around=%s' % a): {rel: sorted('%s %s [%s]' % (k, d, '+'.join(t)) for k, d, t in outs)
                                            for rel, outs in tab.items()} for a, tab in res.items()}
     if not around_calls:
@@ -765,6 +778,61 @@ def _heap_ownership(ctx, rule):
     return c01.r2_heap_ownership(ctx, rule)
 
 
+def r24_restore_visits_every_position(ctx, rule):
+    """The restore walk looks at EVERY position from left_index on: its position loop is left by no break / return (a position
+    whose variable is at its last group is skipped with `continue`).  Seed C14-db turned that continue into break: under --all_lower
+    every capitalisation list has one entry, so the walk stops at each C position and children to the right are never restored."""
+    q = PG + '_recursive_restore_prob_order'
+    fn = ctx.fn(q)
+    ctx.stats['functions'].add(q)
+    loops = [x for x in position_loops(fn)]
+    if len(loops) != 1:
+        ctx.unk(rule, q, 'expected one position loop in the restore walk (found %d)' % len(loops))
+        return
+    loop = loops[0][0]
+    exits = [x for b in loop.body for x in ast.walk(b) if isinstance(x, (ast.Break, ast.Return))
+             and not isinstance(x, (ast.FunctionDef,))]
+    # breaks of nested loops belong to those loops
+    inner = {id(y) for b in loop.body for l2 in ast.walk(b) if isinstance(l2, (ast.For, ast.While)) for z in l2.body for y in ast.walk(z)
+             if isinstance(y, ast.Break)}
+    exits = [x for x in exits if id(x) not in inner]
+    if exits:
+        ctx.bad(rule, q, 'the position loop of the restore walk is left early (%s at line %d)' % (type(exits[0]).__name__.lower(), exits[0].lineno),
+                'positions to the right of the one where the loop stops are never examined: their children are not restored', None, exits[0], firm=True)
+    else:
+        ctx.ok(rule, q, 'the restore walk examines every position from left_index on (no break / return inside the position loop)')
+
+
+def r23_no_save_after_generation(ctx, rule):
+    """The saved position is the probability of the pre-terminal popped LAST, which the resumed run emits again: so a save must
+    come before that pre-terminal is expanded.  In CrackingSession.run no call of _save_session is reachable from create_guesses
+    within the same iteration (without going through the next pop).  Seed C02-da honoured a quit right after the expansion: the
+    .sav then records the probability of a pre-terminal that has already been generated, and --load emits it and its ties again."""
+    from ..cfg import CFG
+    q = CSF + '::CrackingSession.run'
+    fn = ctx.fn(q)
+    mod = ctx.repo.modules[CSF]
+    ctx.stats['functions'].add(q)
+    gens = [c for c in calls_in(fn) if isinstance(c.func, ast.Attribute) and c.func.attr == 'create_guesses']
+    pops = [c for c in calls_in(fn) if U(c.func).endswith('pqueue.next')]
+    saves = [c for c in calls_in(fn) if U(c.func) == 'self._save_session']
+    if len(gens) != 1 or len(pops) != 1 or not saves:
+        ctx.unk(rule, q, 'expected one create_guesses, one pqueue.next and at least one _save_session in run (%d / %d / %d)' % (len(gens), len(pops), len(saves)))
+        return
+    cfg = CFG(fn)
+    gn = cfg.node_of(_stmt_of(mod, gens[0]))
+    pn = cfg.node_of(_stmt_of(mod, pops[0]))
+    reach = cfg.reachable(gn, avoid={pn})
+    ctx.stats['paths'] += 1
+    late = [c for c in saves if cfg.node_of(_stmt_of(mod, c)) in reach]
+    if late:
+        ctx.bad(rule, q, '_save_session reachable after create_guesses in the same iteration (line %d)' % late[0].lineno,
+                'the session is saved with the probability of a pre-terminal that has already been generated: after --load that '
+                'pre-terminal (and everything tied with it) is generated a second time', None, late[0], firm=True)
+    else:
+        ctx.ok(rule, q, 'every _save_session in run() precedes the expansion of the popped pre-terminal (%d save sites)' % len(saves))
+
+
 def r20_position_verbatim(ctx, rule):
     """The position a queue is restored to is the saved one, bit for bit: every store to self.max_probability in PcfgQueue is the
     fresh-session constant, the option read back from the save file, or the probability of the item just popped - never a
@@ -826,7 +894,13 @@ def rules(tier):
             # C08-cb: _are_you_my_child operands swapped - the restore walk assumes the least probable parent adopts
             ('C08.R21', _shared_rule('c02', 'r1_adoption_kernel')),
             # C08-ca: skip_case saved from program_info['skip_brute']
-            ('C08.R22', _shared_rule('c14', 'r14_saved_flags_verbatim'))]
+            ('C08.R22', _shared_rule('c14', 'r14_saved_flags_verbatim')),
+            # C02-da: a quit honoured right after create_guesses saves the probability of an already generated pre-terminal
+            ('C08.R23', _shared_rule('c08', 'r23_no_save_after_generation')),
+            # C14-db: continue -> break in the restore walk
+            ('C08.R24', _shared_rule('c08', 'r24_restore_visits_every_position')),
+            # session files hold one state
+            ('C08.R25', _shared_rule('plumbing', 'writers_truncate'))]
 
 
 META = {
